@@ -69,7 +69,7 @@ def generate(ctx):
             elif r < 0.91:
                 ops.append(["trainer_update", t])
             elif r < 0.95:
-                ops.append(["clear", t])
+                ops.append(["clear", t, rng.choice([None, None, True, False])])
             elif r < 0.975:
                 ops.append(["drop_trainer", t])
             elif r < 0.985:
@@ -304,8 +304,14 @@ def run_case(ctx, desc):
                 w.layers[op[1]].train(op[2])
                 lmode[op[1]] = op[2]
             elif k == "clear":
-                ctx.case(f"clear/{tk}")
-                trainers[ti].clear()
+                keep = op[2] if len(op) > 2 else None
+                ctx.case(f"clear/{tk}/keepshape-{keep}")
+                if keep is None:
+                    trainers[ti].clear()
+                else:
+                    # documented: keyword arguments are passed on to the monitors' clear (storage kept and refilled, or dropped)
+                    trainers[ti].clear(keepshape=keep)
+                    ctx.count("trainer_clears_with_keepshape")
                 for cn in seen[ti]:
                     seen[ti][cn] = 0
                 for cn, mn, mon in slots(ti):
@@ -400,6 +406,10 @@ def run_case(ctx, desc):
                     delta = _CNT["folds"].get(rid, 0) - before.get(rid, 0)
                     exp = 1 if (tmode[ti2] and lmode[lname] and spec[0] == lname) else 0
                     ctx.count("slot_observations_checked")
+                    if delta == exp == 1 and mon.peek() is None:
+                        return ctx.violation(f"slot.observation_folded_but_not_held.{'probe' if mn.startswith('probe') else 'trainer_monitor'}",
+                                             f"trainer {ti2} ({kinds[ti2]}) cell {cn} monitor '{mn}' was called for the step of layer {lname} "
+                                             f"but holds no observation afterwards", rdesc)
                     if delta != exp:
                         other_layer = spec[0] != lname
                         why = ("recorded_for_another_layers_step" if (other_layer and delta) else
